@@ -138,11 +138,23 @@ def _empty_atom(x, subst=None):
     return None
 
 
+def _stale(e, subst):
+    """A local/parameter whose value at the time the condition was evaluated has since been overwritten
+    (subst["@stale"] = {name: tag}) is a different variable from the current one: rename it."""
+    st = subst.get("@stale") if subst else None
+    if st and e[0] in ("local", "param") and len(e) > 1 and e[1] in st:
+        return [e[0], "%s#%s" % (e[1], st[e[1]])]
+    return None
+
+
 def to_formula(e, subst=None):
     """expr -> formula. `subst` maps local names to their defining expression."""
     if not is_expr(e):
         return atom(str(e))
     t = e[0]
+    se = _stale(e, subst)
+    if se is not None:
+        return atom(key(se))
     ea = _empty_atom(e, subst)
     if ea is not None:
         return mk_not(ea)
@@ -192,8 +204,12 @@ def expand(e, subst):
     """Substitute single-definition locals inside a term."""
     if not subst or not is_expr(e):
         return e
+    se = _stale(e, subst)
+    if se is not None:
+        return se
     idx = subst.get("@idx")
-    if idx and e[0] == "idx" and len(e) >= 3 and is_expr(e[2]) and e[2][0] == "local" and e[2][1] in idx and key(e[1]) == key(idx[e[2][1]]):
+    if idx and e[0] == "idx" and len(e) >= 3 and is_expr(e[2]) and e[2][0] == "local" and e[2][1] in idx and key(e[1]) == key(idx[e[2][1]]) \
+            and e[2][1] not in (subst.get("@stale") or ()):
         return ["each", expand(e[1], subst)]     # element of an index loop over the whole range == range-for element
     if e[0] == "local" and e[1] in subst:
         return expand(subst[e[1]], {k: v for k, v in subst.items() if k != e[1]})
@@ -462,38 +478,130 @@ def parse(text):
     return f
 
 
+STALE_RE = re.compile(r"\b([A-Za-z_]\w*)#\w+")
+
+
+def is_stale_atom(k):
+    """The atom mentions an older version of a local (`v#<line>`, see paths.Guard.stale)."""
+    return isinstance(k, str) and STALE_RE.search(k) is not None
+
+
+def strip_stale(k):
+    return STALE_RE.sub(lambda m: m.group(1), k)
+
+
+def unstale(f):
+    """f with the version tags removed (old and current values of a local share one atom again). Only for a
+    rule that itself checks where the local is overwritten relative to the test and to the effect."""
+    return rename(f, {k: (strip_stale(k), True) for k in atoms(f) if is_stale_atom(k)})
+
+
+def assign(f, k, val):
+    """f with atom k replaced by a constant."""
+    t = f[0]
+    if t == "atom":
+        return (T if val else Fa) if f[1] == k else f
+    if t == "not":
+        return mk_not(assign(f[1], k, val))
+    if t == "and":
+        return mk_and([assign(x, k, val) for x in f[1]])
+    if t == "or":
+        return mk_or([assign(x, k, val) for x in f[1]])
+    return f
+
+
+def _drop_irrelevant(q):
+    """q without the atoms it does not depend on (truth-table test; left alone when too large)."""
+    n = len(atoms(q))
+    if n == 0 or n > 14:
+        return q
+    for k in list(atoms(q)):
+        a, b = assign(q, k, True), assign(q, k, False)
+        if equivalent(a, b):
+            q = a
+    return q
+
+
+def forget(f, ks):
+    """Existentially quantify the atoms ks (facts about values that no longer exist at the site). Only the
+    top-level conjuncts that mention an atom are merged (the others keep their shape for the cone-of-influence
+    slice), and atoms the result no longer depends on (`(old || !c)` says nothing about c) are dropped."""
+    for k in ks:
+        if k not in atoms(f):
+            continue
+        if f[0] == "and":
+            hit = [p for p in f[1] if k in atoms(p)]
+            rest = [p for p in f[1] if k not in atoms(p)]
+        else:
+            hit, rest = [f], []
+        sub = mk_and(hit)
+        q = _drop_irrelevant(mk_or([assign(sub, k, True), assign(sub, k, False)]))
+        f = mk_and(rest + [q])
+    return f
+
+
+def _match_one(mm, k):
+    if isinstance(mm, str):
+        return mm == k
+    if hasattr(mm, "fullmatch"):
+        return mm.fullmatch(k) is not None
+    if callable(mm):
+        return bool(mm(k))
+    return False
+
+
 def bind_atoms(f, table):
     """Map code atoms to spec atom names.
 
     table: {spec_name: matcher}; a matcher is an exact key string, a compiled regex (fullmatch),
     a callable(key)->bool, or a tuple (matcher, polarity) when the code atom is the negation of
     the spec atom.  Returns (renamed formula, {code atom: spec name}, [unmatched code atoms]).
+
+    Atoms about an OLDER version of a local (`v#<line>`: the variable was overwritten or redeclared
+    between the condition and the site) are matched with the version tag removed only when the formula
+    has no current-version twin and no second old version of the same atom (then it is simply a fact
+    established earlier, e.g. a check whose out-parameter name was reused later); every other old-version
+    atom is existentially quantified away: it constrains a value that no longer exists.
     """
     mapping = {}
     unmatched = []
-    for k in atoms(f):
-        hit = None
+    ks = atoms(f)
+    current = [k for k in ks if not is_stale_atom(k)]
+    stale = [k for k in ks if is_stale_atom(k)]
+
+    def lookup(k):
         for name, m in table.items():
-            ms = m if isinstance(m, list) else [m]
-            for one in ms:
-                pol = True
-                mm = one
+            for one in (m if isinstance(m, list) else [m]):
+                pol, mm = True, one
                 if isinstance(one, tuple):
                     mm, pol = one
-                ok = False
-                if isinstance(mm, str):
-                    ok = (mm == k)
-                elif hasattr(mm, "fullmatch"):
-                    ok = mm.fullmatch(k) is not None
-                elif callable(mm):
-                    ok = bool(mm(k))
-                if ok:
-                    hit = (name, pol)
-                    break
-            if hit:
-                break
+                if _match_one(mm, k):
+                    return (name, pol)
+        return None
+
+    for k in current:
+        hit = lookup(k)
         if hit:
             mapping[k] = hit
         else:
             unmatched.append(k)
+    gone = []
+    stripped = {}
+    for k in stale:
+        stripped.setdefault(strip_stale(k), []).append(k)
+    for k in stale:
+        hit = lookup(k)
+        if not hit:
+            sk = strip_stale(k)
+            if sk not in current and len(stripped[sk]) == 1:
+                hit = lookup(sk)
+        if hit:
+            mapping[k] = hit
+        else:
+            gone.append(k)
+    if gone:
+        f = forget(f, gone)
+        left = atoms(f)
+        unmatched = [k for k in unmatched if k in left]
+        mapping = {k: v for k, v in mapping.items() if k in left}
     return rename(f, mapping), {k: v[0] for k, v in mapping.items()}, unmatched
